@@ -664,6 +664,23 @@ class Send (BlockingOperation):
                                         timeout=self._timeout)
 
 
+class _SubtaskOp (BlockingOperation):
+  """
+  Runs a subtask's BlockingOperation; if it fails to execute, the exception
+  is raised in the subtask (and so can reach the caller, which would wait
+  forever if the subtask were just descheduled).
+  """
+  def __init__ (self, op):
+    self._op = op
+
+  def execute (self, task, scheduler):
+    try:
+      return self._op.execute(task, scheduler)
+    except Exception:
+      task.rf = None
+      task.re = sys.exc_info()
+      return True # Reclaim running state; the exception is thrown right away
+
 class AgainTask (Task):
   def run_again (self):
     parent = self.parent
@@ -681,7 +698,7 @@ class AgainTask (Task):
       while True:
         if isinstance(nxt, BlockingOperation):
           try:
-            v = yield nxt
+            v = yield _SubtaskOp(nxt)
             do_next = lambda: g.send(v)
           except GeneratorExit:
             raise # This subtask is being discarded
